@@ -106,7 +106,9 @@ theorem unIsIdTy_sound (g : GWorld) : ∀ (n : Nat) (t : Option Ty) (v : Obj), u
       | str => simp [unTy, tyHasCls, un]
       | bytes => simp [unTy, tyHasCls, un]
       | bool => simp [unTy, tyHasCls, un]
-      | lit vs => simp [unTy, tyHasCls, un]
+      | lit vs =>
+        have hl : litHasEnum vs = false := by simpa [unIsIdTy] using h
+        simp [unTy, tyHasCls, un, hl]
       | wrap k t' =>
         simp only [unIsIdTy] at h
         have hn : ∃ m, n = m + 1 := by
